@@ -4,6 +4,7 @@ executable text is extracted from /repo on the spot.
 Unit syntax: ordinary Verus text, copied verbatim, interleaved with directives:
 
   //@include <path relative to /verif>
+  //@watch <repo file> :: <selector> <sha>   a function NOT under contract: a change of its text makes the run undecided
   //@template <path relative to /verif> KEY=VALUE ...   include a unit template ({{KEY}} replaced), directives inside are processed
   //@extract <repo-relative file> :: <selector>        (selector: see rustscan.Source.locate)
      //@as <name>                 obligation name used in reports (default: selector tail)
@@ -282,6 +283,24 @@ def weave(unit_path, repo, verif_root, vacuity=False):
         if s.startswith("//@include "):
             p = os.path.join(verif_root, s[len("//@include "):].strip())
             chunks.append(Chunk(open(p).read(), {"kind": "include", "path": p}))
+            i += 1
+        elif s.startswith("//@watch "):
+            # //@watch <repo file> :: <selector> <sha256 prefix> : a function that is NOT under contract but whose behaviour
+            # the property depends on. Its text is hashed (whitespace-normalised); any change makes the run undecided (and
+            # so triggers the property's bounded fallbacks) instead of passing silently.
+            mt = re.match(r"//@watch\s+(\S+)\s+::\s+(.*?)\s+([0-9a-f]{8,64}|\?)\s*$", s)
+            if not mt:
+                raise LostAnchor("%s:%d: bad watch directive" % (unit_path, i + 1))
+            relf, sel, want = mt.group(1), mt.group(2), mt.group(3)
+            try:
+                srcw = Source(relf, open(os.path.join(repo, relf)).read())
+                ws, we = srcw.locate(sel)
+            except (OSError, ScanError) as ex:
+                raise LostAnchor("watch %s :: %s: %s" % (relf, sel, ex))
+            got = hashlib.sha256(" ".join(srcw.text[ws:we].split()).encode()).hexdigest()[:len(want) if want != "?" else 16]
+            if want != got:
+                raise LostAnchor("watched function %s :: %s has changed (hash %s, recorded %s): it is not under contract, so nothing is decided about the new text" % (relf, sel, got, want))
+            log.append({"rule": "watch", "where": "%s:%d" % (relf, srcw.line_of(ws)), "fn": sel, "before": "sha256 %s" % got, "after": "unchanged (not under contract)"})
             i += 1
         elif s.startswith("//@census "):
             # //@census <count> <glob relative to repo> /<regex>/ : the number of matches in the repository must be
